@@ -341,4 +341,33 @@ theorem bodyText_disco_carry (o : OutOpts) (hm : NoMarks o) (g : List (Nat × Tr
   obtain ⟨h1, h2, h3⟩ := hg p hp
   simp only [writeOne, writeDisco_plain_carry o hm p.2 h1 h2 h3]
 
+section export5
+open TT.Lemmas.ExportRT TT.Lemmas.GramOut
+
+/-! ### export, five columns, any writer options (label decoration allowed) -/
+
+/-- the reader parses the line of the node at `p` written in the five-column layout under any writer options -/
+theorem parse_lineAt5 (o : OutOpts) (ho4 : o.exportFour = false) (t : Tree) (p : Path) (hwf : WF t = true)
+    (hok : ExportOK o t = true) (hp : p ∈ paths t) (hp0 : p ≠ [])
+    (h : decExpLine false (lineAt o t p) = some (entry o t p)) :
+    exportParseLine {} (lineAt o t p) = .ok (rentryO o t p) := by
+  obtain ⟨pp, hs, hpp⟩ := splitWs_of_decExpLine_v3 _ _ h
+  have hc := isCons_dropLast t p hp hp0
+  have hr : (entry o t p).parent = 0 ∨ (500 ≤ (entry o t p).parent ∧ (entry o t p).parent < 1000) := by
+    have e : (entry o t p).parent = numOf t p.dropLast := rfl
+    rw [e]
+    by_cases h0 : p.dropLast = []
+    · left; rw [h0, numOf_root t (WF_root t hwf).1]
+    · right
+      have hm : p.dropLast ∈ consPaths t := by
+        have hp' := mem_paths_of_isCons t _ hc
+        rw [isCons_eq t _ hp'] at hc
+        exact (mem_consPaths t _).2 ⟨hp', h0, by simpa using hc⟩
+      exact numOf_cons_bounds o t _ hwf hok hm
+  rw [exportParseLine_of_split {} rfl _ _ _ _ _ _ _ hs hpp hr]
+  simp only [rentryO, ho4, Bool.false_eq_true, if_false]
+  rfl
+
+end export5
+
 end TT.Lemmas.More16d
